@@ -36,7 +36,8 @@ func init() {
 			"nesting that shows the failure; a case is non-trivial when a non-normal exit crosses at least one intervening form on the way to its target",
 		Assumptions: []string{
 			"ref/eval is the oracle (lexical targets by construction; exits as Go panics)",
-			"exits are placed in body positions only (never in argument, test, binding-init or cleanup-form positions)",
+			"exits (return-from / return / go) are placed in body positions only (never in argument, test, binding-init or cleanup-form positions); errors are also placed inside cleanup forms (unwind-protect positions pe/pd/pu/pt)",
+			"when a cleanup form signals an error while another error is in flight either class may surface (the trace is still demanded exactly)",
 			"the primary value of ignore-errors after it caught an error is not pinned down (wild)",
 			"the 'original condition class' of an error form is the class slip itself reports when that form is evaluated alone at top level",
 			"tagbody tags are integers in the main alphabet; symbol tags are the separate kind tagbody-sym, used only in the complete depths, and while the build under test evaluates a fallen-through symbol tag (probed once per process) programs holding one get coarse signatures (ctx=tagbody-sym ...)",
